@@ -1,0 +1,134 @@
+//go:build verif
+
+// Contracts for govc (/verif): C11 "Historical consensus views depend only on earlier ledger records" — custodian half. Comment-only file.
+// Key space and T-KV vocabulary: zz_contracts_c03_verif.go; iterator model: /verif/govc/trusted/badger.spec; sync.Map: trusted/c11.spec.
+
+package storage
+
+//@ -- key space of the custodian records (kind 15, CustKeyId): zz_contracts_keyspace_verif.go
+//@ spec IsCustKey(k mathint) bool = k == CustKeyId(keynum(k)) && 0 <= keynum(k) && keynum(k) < 18446744073709551616
+//@ -- CustAt(t, ts): value id (the 32 bytes of a transaction hash) of the custodian record at timestamp ts, 0 = none
+//@ spec CustAt(t badger.Txn, ts mathint) mathint = badger.kvget(t, CustKeyId(ts))
+
+//@ -- ═════════ the deep copy handed to callers ═════════
+//@ -- cloneCustodianUpdate: a NEW request with the same content (every pointer-held part copied: custodian, signature, nodes and their
+//@ -- extra bytes), carrying the given transaction hash and timestamp; the source object is not written (`modifies nothing`).
+//@ -- ReqShape(o): o and everything it points to exist (in a precondition: existed before the call), nodes non-nil with 353 extra bytes
+//@ spec ReqShape(o *common.CustodianUpdateRequest) bool = o != nil && allocated(o) && allocated(o.Nodes) && allocated(o.Custodian) && allocated(o.Signature) &&
+//@     (forall k int :: {o.Nodes[k]} 0 <= k && k < len(o.Nodes) ==> o.Nodes[k] != nil && allocated(o.Nodes[k]) && len(o.Nodes[k].Extra) == 353 && allocated(o.Nodes[k].Extra))
+//@ func cloneCustodianUpdate
+//@   property C11
+//@   requires ReqShape(cur)
+//@   modifies nothing
+//@   ensures [new] result != nil && fresh(result) && result.Transaction == hash && result.Timestamp == ts
+//@   ensures [shape] ReqShape(result)
+//@   ensures [content] common.SameReq(result, cur)
+//@   ensures [deep] (result.Custodian == nil || fresh(result.Custodian)) && (result.Signature == nil || fresh(result.Signature)) &&
+//@       (len(result.Nodes) == 0 || fresh(result.Nodes)) &&
+//@       (forall k int :: {result.Nodes[k]} 0 <= k && k < len(result.Nodes) ==> fresh(result.Nodes[k]) && fresh(result.Nodes[k].Extra))
+//@   -- the loop writes byte blocks allocated after it started only (the new nodes and their extra bytes)
+//@   loop 0 invariant [kept] forall p *crypto.Key :: {*p} loopentry(allocated(p)) ==> *p == loopentry(*p)
+//@   loop 0 invariant [nodes] len(cloned.Nodes) == len(cur.Nodes) && fresh(cloned.Nodes) && loopentry(allocated(cloned.Nodes))
+//@   loop 0 invariant [copied] forall k int :: {cloned.Nodes[k]} 0 <= k && k <= rangeindex ==> cloned.Nodes[k] != nil && fresh(cloned.Nodes[k]) && allocated(cloned.Nodes[k]) &&
+//@       cloned.Nodes[k].Custodian == cur.Nodes[k].Custodian && cloned.Nodes[k].Payee == cur.Nodes[k].Payee &&
+//@       len(cloned.Nodes[k].Extra) == 353 && fresh(cloned.Nodes[k].Extra) && allocated(cloned.Nodes[k].Extra)
+
+//@ -- ═════════ one record: parse (or take from the cache) and copy ═════════
+//@ -- TxExtraOf(v): the Extra bytes (seq code) of the transaction whose stored encoding has the value id v: decoding is a function of the bytes.
+//@ uninterp TxExtraOf(v mathint) mathint
+//@ -- TxOf(t, h): value id of the stored transaction with the hash whose 32 bytes have id h
+//@ spec TxOf(t badger.Txn, h mathint) mathint = badger.kvget(t, TxKeyId(h))
+//@ -- EntryOK: the cache entry filed under (hash, genesis), if any, is a parse result of that transaction and flag. The cache invariant
+//@ -- "every entry is EntryOK" is ASSUMED for the entry a lookup touches (it relates the process-wide cache to the store: a TRANSACTION
+//@ -- entry referenced by a custodian record is never rewritten with different bytes) and PROVED to hold for it afterwards; a lookup writes
+//@ -- no other entry (LoadOrStore) and no cached object (`modifies *cache` only), so the invariant is preserved as a whole (meta-step).
+//@ -- KeyHash / KeyGen: the two components of a cache key, read off the interface value it is stored under (Go compares the boxed
+//@ -- custodianCacheKey structs by value, so the components are functions of the interface value). Definitional.
+//@ uninterp KeyHash(k any) mathint
+//@ uninterp KeyGen(k any) bool
+//@ axiom @C11 forall ck custodianCacheKey :: {iface(ck)} KeyHash(iface(ck)) == kvval(ck.transaction) && KeyGen(iface(ck)) == ck.genesis
+//@ spec EntryOK(cache *sync.Map, t badger.Txn, k any) bool = sync.smhas(*cache, k) ==>
+//@     exists o *common.CustodianUpdateRequest :: sync.smval(*cache, k) == iface(o) && ReqShape(o) &&
+//@        common.ReqIs(o, TxExtraOf(TxOf(t, KeyHash(k))), KeyGen(k))
+//@ spec CacheAll(cache *sync.Map, t badger.Txn) bool = cache != nil ==> forall k any :: {sync.smhas(*cache, k)} EntryOK(cache, t, k)
+//@ -- the iterator sits on a custodian record whose value is a 32-byte hash of a stored transaction, and sees what the transaction sees
+//@ spec OnCustRecord(t badger.Txn, it *badger.Iterator) bool = it != nil && badger.itkey(*it) != 0 && IsCustKey(badger.itkey(*it)) &&
+//@     badger.itget(it, badger.itkey(*it)) == badger.kvget(t, badger.itkey(*it)) && badger.vallen(badger.kvget(t, badger.itkey(*it))) == 32 &&
+//@     TxOf(t, badger.kvget(t, badger.itkey(*it))) != 0
+
+//@ func parseCustodianUpdateItem
+//@   property C11
+//@   requires txn != nil && OnCustRecord(*txn, it) && CacheAll(cache, *txn)
+//@   modifies *cache
+//@   ensures [reject] err != nil ==> result0 == nil
+//@   ensures [content] err == nil ==> result0 != nil && fresh(result0) && ReqShape(result0) && result0.Timestamp == keynum(badger.itkey(*it)) &&
+//@       kvval(result0.Transaction) == badger.kvget(*txn, badger.itkey(*it)) &&
+//@       common.ReqIs(result0, TxExtraOf(TxOf(*txn, badger.kvget(*txn, badger.itkey(*it)))), genesis)
+//@   ensures [cache-inv] CacheAll(cache, *txn)
+
+//@ -- ═════════ the lookup: the record of greatest timestamp <= ts ═════════
+//@ -- CustOK: representation invariant of the snapshots DB for this prefix (requires of the readers; writeCustodianNodes is the only writer):
+//@ -- every CUSTODIANUPDATE entry is keyed CUSTODIANUPDATE|be64(t), holds a 32-byte hash, and the transaction with that hash is stored.
+//@ spec CustOK(t badger.Txn) bool = forall k mathint :: {badger.kvget(t, k)} badger.kvget(t, k) != 0 && badger.keypfx(k, strkey(graphPrefixCustodianUpdate)) == 0 ==>
+//@     IsCustKey(k) && badger.vallen(badger.kvget(t, k)) == 32 && TxOf(t, badger.kvget(t, k)) != 0
+//@ -- NoneBelow(t, T): no custodian record before T — the record at T is the first one (it is parsed with the genesis flag)
+//@ spec NoneBelow(t badger.Txn, T mathint) bool = forall x mathint :: {CustAt(t, x)} 0 <= x && x < T ==> CustAt(t, x) == 0
+//@ spec U64T(x mathint) bool = 0 <= x && x < 18446744073709551616
+//@ -- what is known about a returned request r for the record at its own timestamp
+//@ spec RecordOf(t badger.Txn, r *common.CustodianUpdateRequest) bool = CustAt(t, r.Timestamp) != 0 && kvval(r.Transaction) == CustAt(t, r.Timestamp) &&
+//@     (NoneBelow(t, r.Timestamp) ==> common.ReqIs(r, TxExtraOf(TxOf(t, CustAt(t, r.Timestamp))), true)) &&
+//@     (!NoneBelow(t, r.Timestamp) ==> common.ReqIs(r, TxExtraOf(TxOf(t, CustAt(t, r.Timestamp))), false))
+
+//@ func readCustodianAccount
+//@   property C11
+//@   requires txn != nil && CustOK(*txn) && CacheAll(cache, *txn)
+//@   modifies *cache
+//@   ensures [error] err != nil ==> result0 == nil
+//@   ensures [none] err == nil && result0 == nil ==> forall x mathint :: {CustAt(*txn, x)} U64T(x) && x <= ts ==> CustAt(*txn, x) == 0
+//@   ensures [greatest] err == nil && result0 != nil ==> result0.Timestamp <= ts &&
+//@       (forall x mathint :: {CustAt(*txn, x)} U64T(x) && result0.Timestamp < x && x <= ts ==> CustAt(*txn, x) == 0)
+//@   ensures [record] err == nil && result0 != nil ==> fresh(result0) && RecordOf(*txn, result0)
+//@   ensures [cache-inv] CacheAll(cache, *txn)
+//@   -- proof guidance (checked where stated, then assumed): the position is the custodian key of its own timestamp; the genesis flag is
+//@   -- true exactly when no record precedes it; hence what parseCustodianUpdateItem returns is the record of that timestamp
+//@   hint at "cur, err := parseCustodianUpdateItem(txn, it, genesis, cache)" [key] IsCustKey(badger.itkey(*it)) && keynum(badger.itkey(*it)) <= ts &&
+//@       CustAt(*txn, keynum(badger.itkey(*it))) == badger.kvget(*txn, badger.itkey(*it)) && CustAt(*txn, keynum(badger.itkey(*it))) != 0
+//@   hint at "cur, err := parseCustodianUpdateItem(txn, it, genesis, cache)" [flag-first] genesis ==> NoneBelow(*txn, keynum(badger.itkey(*it)))
+//@   hint at "cur, err := parseCustodianUpdateItem(txn, it, genesis, cache)" [flag-later] !genesis ==> !NoneBelow(*txn, keynum(badger.itkey(*it)))
+//@   hint after parseCustodianUpdateItem [record] callresult1 == nil ==> RecordOf(*txn, callresult0)
+//@   loop 0 invariant [iter] it != nil && !badger.itrev(it) && badger.itprefix(it) == strkey(graphPrefixCustodianUpdate) &&
+//@       (forall k mathint :: {badger.itget(it, k)} badger.itget(it, k) == badger.kvget(*txn, k))
+//@   loop 0 invariant [cache] CacheAll(cache, *txn)
+//@   loop 0 invariant [pos] badger.itkey(*it) != 0 ==> badger.itget(it, badger.itkey(*it)) != 0 && !badger.keylt(badger.itkey(*it), CustKeyId(0))
+//@   loop 0 invariant [gen] genesis <==> found == nil
+//@   loop 0 invariant [found] found != nil ==> fresh(found) && ReqShape(found) && U64T(found.Timestamp) && found.Timestamp <= ts && RecordOf(*txn, found) &&
+//@       (badger.itkey(*it) != 0 ==> badger.keylt(CustKeyId(found.Timestamp), badger.itkey(*it)))
+//@   loop 0 invariant [above] forall x mathint :: {CustAt(*txn, x)} U64T(x) && CustAt(*txn, x) != 0 && (found == nil || found.Timestamp < x) ==>
+//@       badger.itkey(*it) != 0 && !badger.keylt(CustKeyId(x), badger.itkey(*it))
+
+//@ -- ═════════ the public observation point: one read-only transaction over the committed state ═════════
+//@ spec DbCustAt(d badger.DB, ts mathint) mathint = badger.dbget(d, CustKeyId(ts))
+//@ spec DbTxOf(d badger.DB, h mathint) mathint = badger.dbget(d, TxKeyId(h))
+//@ spec DbCustOK(d badger.DB) bool = forall k mathint :: {badger.dbget(d, k)} badger.dbget(d, k) != 0 && badger.keypfx(k, strkey(graphPrefixCustodianUpdate)) == 0 ==>
+//@     IsCustKey(k) && badger.vallen(badger.dbget(d, k)) == 32 && DbTxOf(d, badger.dbget(d, k)) != 0
+//@ spec DbNoneBelow(d badger.DB, T mathint) bool = forall x mathint :: {DbCustAt(d, x)} 0 <= x && x < T ==> DbCustAt(d, x) == 0
+//@ spec DbEntryOK(cache *sync.Map, d badger.DB, k any) bool = sync.smhas(*cache, k) ==>
+//@     exists o *common.CustodianUpdateRequest :: sync.smval(*cache, k) == iface(o) && ReqShape(o) &&
+//@        common.ReqIs(o, TxExtraOf(DbTxOf(d, KeyHash(k))), KeyGen(k))
+//@ spec DbCacheAll(cache *sync.Map, d badger.DB) bool = forall k any :: {sync.smhas(*cache, k)} DbEntryOK(cache, d, k)
+
+//@ -- ReadCustodian(ts): nil when no custodian record has a timestamp <= ts; otherwise a fresh deep copy of the parse of the transaction
+//@ -- of the record with the GREATEST timestamp <= ts (genesis flag: it is the first record), carrying that hash and timestamp — a function
+//@ -- of the records with timestamp <= ts (and the transactions they name) only, whatever the cache holds.
+//@ func (s *BadgerStore) ReadCustodian
+//@   property C11
+//@   requires s != nil && s.snapshotsDB != nil && DbCustOK(*s.snapshotsDB) && DbCacheAll(&s.custodians, *s.snapshotsDB)
+//@   modifies s.custodians
+//@   ensures [error] err != nil ==> result0 == nil
+//@   ensures [none] err == nil && result0 == nil ==> forall x mathint :: {DbCustAt(*s.snapshotsDB, x)} U64T(x) && x <= ts ==> DbCustAt(*s.snapshotsDB, x) == 0
+//@   ensures [greatest] err == nil && result0 != nil ==> result0.Timestamp <= ts && DbCustAt(*s.snapshotsDB, result0.Timestamp) != 0 &&
+//@       (forall x mathint :: {DbCustAt(*s.snapshotsDB, x)} U64T(x) && result0.Timestamp < x && x <= ts ==> DbCustAt(*s.snapshotsDB, x) == 0)
+//@   ensures [record] err == nil && result0 != nil ==> fresh(result0) && kvval(result0.Transaction) == DbCustAt(*s.snapshotsDB, result0.Timestamp) &&
+//@       (DbNoneBelow(*s.snapshotsDB, result0.Timestamp) ==> common.ReqIs(result0, TxExtraOf(DbTxOf(*s.snapshotsDB, DbCustAt(*s.snapshotsDB, result0.Timestamp))), true)) &&
+//@       (!DbNoneBelow(*s.snapshotsDB, result0.Timestamp) ==> common.ReqIs(result0, TxExtraOf(DbTxOf(*s.snapshotsDB, DbCustAt(*s.snapshotsDB, result0.Timestamp))), false))
+//@   ensures [cache-inv] DbCacheAll(&s.custodians, *s.snapshotsDB)
